@@ -169,6 +169,10 @@ def _weave_shapes(tier):
         add(1, 2, 4, 2)
         for pa, pb in ((1, 1), (2, 1), (1, 2), (2, 2)):
             add(2, 2, pa, pb)
+        # two groups of two, widths 3 and 4, one member of b with a gap and exactly plen[a] residues (see the thorough tier)
+        n0 = len(out)
+        add(2, 2, 3, 4)
+        out[n0:] = [x for x in out[n0:] if x['name'].split('_lens')[1].split('_')[0] in ('3343', '3334')]
         return out
     pls, groups, maxsum = [1, 2, 3, 4], [(1, 1), (1, 2), (2, 1), (2, 2), (3, 1), (1, 3)], 7
     for na, nb in groups:
@@ -179,6 +183,9 @@ def _weave_shapes(tier):
                 if na + nb >= 4 and pa + pb > 6:
                     continue
                 add(na, nb, pa, pb)
+    # two groups of two, widths 3 and 4: the smallest size in which a member of b that already has a gap has exactly plen[a] residues
+    # and b receives a new gap behind that gap (seed C10_c)
+    add(2, 2, 3, 4)
     return out
 Q(id='C01.weave', props=['C01', 'C10'], cls='B', harness='c01_weave.c', entry='h_c01_weave', shapes=_weave_shapes,
   mode='wrap', unwind=12, timeout=900, loops_files=['weave.loops', 'aln_run.loops'], shrink=True,
@@ -192,8 +199,9 @@ Q(id='C01.weave', props=['C01', 'C10'], cls='B', harness='c01_weave.c', entry='h
 def _run_shapes(tier):
     import itertools
     out = []
-    lens_sets = [(2, 1), (1, 1), (2, 0, 1), (0, 2, 2), (1, 0), (0, 0, 1), (3, 1)] if tier == 'quick' else \
-        [t for n in (2, 3) for t in itertools.product(range(0, 4), repeat=n)]
+    # (3,1,2,1): four sequences, the longest first and a shortest last, the middle ones out of length order (restoring the input order must move them)
+    lens_sets = [(2, 1), (1, 1), (2, 0, 1), (0, 2, 2), (1, 0), (0, 0, 1), (3, 1), (3, 1, 2, 1)] if tier == 'quick' else \
+        [t for n in (2, 3) for t in itertools.product(range(0, 4), repeat=n)] + [(3, 1, 2, 1), (2, 1, 2, 1)]
     for lens in lens_sets:
         nz = [x for x in lens if x > 0]
         ws = range(max(nz), max(nz) + 3) if len(nz) >= 2 else [1]
@@ -210,7 +218,7 @@ Q(id='C01.kalign_run', props=['C01', 'C04', 'C03'], cls='B', harness='c01_run.c'
   trusted=[TRUST_MSG, 'qsort: insertion-sort stub calling the real comparator', 'esl_stopwatch_*: no-op stubs',
            'build_tree_kmeans / create_msa_tree replaced by contract stubs (require: input de-aligned, >= 2 non-empty sequences; ensure: a well-formed alignment)',
            'convert_msa_to_internal, aln_param_init/free, alloc_tasks/free_tasks: frame-only stubs (each has its own contract query)'],
-  assumptions=[A_NOFAIL, A_WRAP, 'bounded: 2-3 sequences of 0-3 residues, gap counts 0-2, widths case-split; data invariant of detect_aligned instantiated: status UNALIGNED only if all gap counts are 0'])
+  assumptions=[A_NOFAIL, A_WRAP, 'bounded: 2-3 sequences (and two 4-sequence shapes) of 0-3 residues, gap counts 0-2, widths case-split; data invariant of detect_aligned instantiated: status UNALIGNED only if all gap counts are 0'])
 
 def _lifecycle_shapes(tier):
     out = []
@@ -744,6 +752,14 @@ Q(id='C12.d_estimation', props=['C12'], cls='B', harness='c12_distance.c', entry
   native_srcs=['lib/src/tldevel.c'],
   trusted=[TRUST_MSG, 'bpm_block replaced by a stub with its contract (0..1024, symmetric per pair, 0 on the diagonal; C11)', 'alloc_2D_array_size_float (tldevel.c galloc) replaced by a plain allocator'],
   assumptions=[A_FLOAT, A_WRAP, A_NOFAIL, 'bounded: instance of 2 sequences, lengths a symbolic choice among 16 representative values (1 .. 200000, around 1000 / 10000 / 20000), edit distances 0..1024 symbolic; pair mode (< 100 sequences) only'])
+Q(id='C16.tree_lifecycle', props=['C16', 'C05'], cls='B', harness='c16_tree_lifecycle.c', entry='h_c16_tree_lifecycle',
+  shapes=lambda tier: [dict(name='n%d' % n, defs=dict(KV_N=n), unwind=n + 6) for n in ((3, 4) if tier == 'quick' else (2, 3, 4, 5))],
+  mode='wrap', timeout=900, leak_check=True, object_bits=10,
+  funcs=['build_tree_kmeans', 'bisecting_kmeans', 'upgma', 'label_internal', 'create_tasks', 'alloc_node', 'alloc_tasks', 'free_tasks'],
+  srcs=['lib/src/task.c', 'lib/src/tlrng.c', 'lib/src/euclidean_dist.c'], native_srcs=[x for x in KMEANS_NATIVE if not x.endswith(('bisectingKmeans.c', 'sequence_distance.c', 'pick_anchor.c', 'bpm.c'))],
+  trusted=[TRUST_MSG, 'pick_anchor and d_estimation replaced by harness stubs that hand out freshly allocated arrays of the documented shapes (2 anchors; numseq rows x 8 columns; n x n in pair mode)',
+           'gfree of tldevel.c replaced by a plain 2-D free', 'esl_stopwatch_*: no-op stubs'],
+  assumptions=[A_NOFAIL, A_WRAP, A_FLOAT, 'bounded: 3-4 (thorough 2-5) sequences, i.e. the exact (upgma) branch of bisecting_kmeans; concrete distances; leak = CBMC --memory-leak-check after free_tasks'])
 Q(id='C11.calc_distance', props=['C11', 'C12'], cls='P', harness='c11_calc_distance.c', entry='h_c11_calc_distance',
   mode='wrap', unwind=4, timeout=300, funcs=['calc_distance'], native_srcs=['lib/src/tldevel.c', 'lib/src/msa_alloc.c', 'lib/src/alphabet.c', 'lib/src/tlmisc.c'],
   trusted=[TRUST_MSG, 'bpm_block replaced by a recording stub with its contract (value in 0..1024; C11.bpm_block)'], assumptions=[A_WRAP])
